@@ -59,7 +59,21 @@ def strace_ops(args, cwd, target):
     except OSError:
         return None
     base = os.path.basename(target)
+    # with -f, a system call of one thread that overlaps another thread's is printed in two pieces
+    # (`pid write(3, ... <unfinished ...>` / `pid <... write resumed>...) = 26`): join them first
+    pending, joined = {}, []
     for ln in lines:
+        mu = re.match(r"^(\d+)\s+(\w+)\((.*)<unfinished \.\.\.>\s*$", ln)
+        if mu:
+            pending[mu.group(1)] = (mu.group(2), mu.group(3))
+            continue
+        mr = re.match(r"^(\d+)\s+<\.\.\. (\w+) resumed>(.*)$", ln)
+        if mr and mr.group(1) in pending and pending[mr.group(1)][0] == mr.group(2):
+            sc0, pre = pending.pop(mr.group(1))
+            joined.append("%s %s(%s%s" % (mr.group(1), sc0, pre, mr.group(3)))
+            continue
+        joined.append(ln)
+    for ln in joined:
         m = re.match(r"^(\d+)\s+(\w+)\((.*)\)\s+=\s+(-?\d+)", ln)
         if not m:
             continue
